@@ -49,8 +49,8 @@ def oracle(case, out):
 class C01(DrvProp):
     pid = "C01"
     manifest = dict(
-        text="Coq proof of the reference-count invariant of the operation storage over a labelled transition system in which every hook event / user action is one label (all event sequences of any length, any number of operations, both drivers): storage of an operation the OS still owns is never freed, is released exactly once, is never touched after release; tied to the code by replaying hook-recorded histories of the real driver through the extracted LTS (every history must be a run; every KEY_FREE is predicted) plus an oracle on the history.",
-        note="Partial: the kernel (a CQE ends ownership; closing the ring quiesces in-flight ops) and pool threads are environment labels; memory contents are not modelled (storage identity only); weak memory not modelled (single driver thread). Trusted: Coq kernel, extraction + driver, the cfg(compio_verif) hook commits, harness/rt/src/bin/drv.rs. No axioms. Zero-copy and multishot ops are covered by the model's MORE/FINAL labels but not yet by harness programs.",
+        text="Coq proof of the reference-count invariant of the operation storage over a labelled transition system in which every hook event / user action is one label (all event sequences of any length, any number of operations, both drivers): storage of an operation the OS still owns is never freed, is released exactly once, is never touched after release; tied to the code by replaying hook-recorded histories of the real driver through the extracted LTS (every history must be a run; every KEY_FREE is predicted) plus an oracle on the history. Polling driver: model of the per-descriptor queues (PollDrv.v) with the invariant, proved for every reachable state, that the user data the OS poller holds is an operation queued on that descriptor (never freed storage), tied by replaying the queue/arm/event hook events through the extracted model (every poller call predicted).",
+        note="Partial: the kernel (a CQE ends ownership; closing the ring quiesces in-flight ops) and pool threads are environment labels; memory contents are not modelled (storage identity only); weak memory not modelled (single driver thread). Trusted: Coq kernel, extraction + driver, the cfg(compio_verif) hook commits, harness/rt/src/bin/drv.rs. No axioms. Harness programs include zero-copy send, multishot accept, thread-pool jobs, cancel routes and driver drop.",
         technique="Coq invariant proof over an LTS + acceptance of recorded histories by the extracted LTS")
     prop_file = "prop/C01.v"
     gen = gen_drv.make("c01")
